@@ -252,6 +252,19 @@ def run_check(modname, tier, verif_seed, nworkers, n_override=None, selftest=Tru
     results = []
     status_counts = {}
     harness_errors = []
+    # ---- known findings of this property: replay the stored case, announce it
+    for ent in known:
+        if ent.get("status") != "known" or ent["property"] != prop:
+            continue
+        rp = os.path.join(VERIF, ent.get("replay", ""))
+        still = None
+        if ent.get("replay") and os.path.exists(rp):
+            rep = json.load(open(rp))
+            res = _exec_job(rep.get("module", modname), rep["job"])
+            still = any(v["property"] == ent["property"] and v["clause"] == ent["clause"] and match_known(v, [ent])
+                        for v in res.get("violations", []))
+        print(f"KNOWN-FINDING: property={prop} {ent['what']} (id={ent['id']}"
+              f"{'' if still is None else ', stored case reproduces' if still else ', stored case NO LONGER reproduces'})")
     pool = make_pool(nworkers)
     deadline = (t0 + budget_s) if budget_s else None
     try:
@@ -420,7 +433,7 @@ def run_check(modname, tier, verif_seed, nworkers, n_override=None, selftest=Tru
     write_evidence(prop, evidence)
 
     for ent, cnt in known_hit.values():
-        print(f"KNOWN-FINDING: property={prop} {ent['what']} (id={ent['id']}, seen {cnt}x)")
+        print(f"[{prop}] known finding {ent['id']} met {cnt}x during exploration")
     rc = 0
     for p, c, msg, path, cnt in reported:
         print(f"VIOLATION property={p} replay={path}")
